@@ -302,6 +302,19 @@ def rand_int_kv(rng, pmax=3, nintmax=3):
     return U + [F(x)] * (p + 1)
 
 
+DYADIC = [F(k, 8) for k in range(1, 8)]
+
+
+def rand_dyadic_kv(rng, pmax=3, nintmax=2):
+    """knot vector on [0, 1] whose knots are exactly representable as floats (float and Fraction versions compare and hash equal,
+    so anything memoised on knot tuples is shared between the float and the exact computation)"""
+    p = rng.randint(1, pmax)
+    U = [F(0)] * (p + 1)
+    for v in sorted(rng.sample(DYADIC, rng.randint(0, nintmax))):
+        U += [v] * rng.randint(1, p)
+    return U + [F(1)] * (p + 1)
+
+
 def reducible_bezier(rng, dim=2):
     """a single-span curve that `clean()` could simplify: a segment stored with degree 2/3, a parabola stored as a cubic,
     or a rational Bezier with constant weights (dyadic data: exact as floats)"""
